@@ -284,13 +284,12 @@ theorem tdiv_count_down {S E k : Int} (hk : k < 0) (hSE : E < S) :
 
 /-- closed form of a successful `extract_slice_indices` on a slice object, in the terms of the specification -/
 theorem extract_slice_form {n : Nat} (hn : (n : Int) ≤ PY_SSIZE_T_MAX) {a b c : Option Int}
-    (hc : ∀ v, c = some v → -PY_SSIZE_T_MAX ≤ v) {s : SliceIdx} {minEnd : Int}
-    (h : extractSliceIndices n (.slice a b c) minEnd = .ok s) :
+    (hc : ∀ v, c = some v → -PY_SSIZE_T_MAX ≤ v) {s : SliceIdx} {minEnd minStart : Int}
+    (h : extractSliceIndices n (.slice a b c) minEnd minStart = .ok s) :
     s.step = c.getD 1 ∧ s.step ≠ 0 ∧
     ((0 < s.step ∧ s.start = PyList.boundUp n a 0 ∧
         s.slicelength = countUp s.step.toNat (PyList.boundUp n b n) (PyList.boundUp n a 0)) ∨
-     (s.step < 0 ∧ 0 ≤ PyList.boundDown n a ((n : Int) - 1) ∧
-        (s.start : Int) = PyList.boundDown n a ((n : Int) - 1) ∧
+     (s.step < 0 ∧ s.start = (PyList.boundDown n a ((n : Int) - 1)).toNat ∧
         s.slicelength = countDown (-s.step).toNat (PyList.boundDown n b (-1))
           (PyList.boundDown n a ((n : Int) - 1)))) := by
   unfold extractSliceIndices at h
@@ -315,8 +314,7 @@ theorem extract_slice_form {n : Nat} (hn : (n : Int) ≤ PY_SSIZE_T_MAX) {a b c 
         · rename_i hok
           simp only [Except.ok.injEq] at h
           subst h
-          have hS : 0 ≤ S := by omega
-          refine ⟨h1, h2, Or.inr ⟨hneg, hS, by simp only; omega, ?_⟩⟩
+          refine ⟨h1, h2, Or.inr ⟨hneg, rfl, ?_⟩⟩
           simp only [countDown, hSE, if_true]
           exact tdiv_count_down hneg hSE
       · simp only [hSE, if_false] at h
@@ -325,8 +323,7 @@ theorem extract_slice_form {n : Nat} (hn : (n : Int) ≤ PY_SSIZE_T_MAX) {a b c 
         · rename_i hok
           simp only [Except.ok.injEq] at h
           subst h
-          have hS : 0 ≤ S := by omega
-          refine ⟨h1, h2, Or.inr ⟨hneg, hS, by simp only; omega, ?_⟩⟩
+          refine ⟨h1, h2, Or.inr ⟨hneg, rfl, ?_⟩⟩
           simp [countDown, hSE]
     · have hpos : 0 < st := by omega
       simp only [hneg, if_false] at h h3 h4
@@ -373,12 +370,12 @@ theorem boundDown_range {n : Nat} (x : Option Int) {d : Int} (hd : -1 ≤ d ∧ 
 
 /-- positions visited by a successful `extract_slice_indices`, without wrap-around -/
 theorem slice_at_form {n : Nat} (hn : (n : Int) ≤ PY_SSIZE_T_MAX) {a b c : Option Int}
-    (hc : ∀ v, c = some v → -PY_SSIZE_T_MAX ≤ v) {s : SliceIdx} {minEnd : Int}
-    (h : extractSliceIndices n (.slice a b c) minEnd = .ok s) (i : Nat) (hi : i < s.slicelength) :
+    (hc : ∀ v, c = some v → -PY_SSIZE_T_MAX ≤ v) {s : SliceIdx} {minEnd minStart : Int}
+    (h : extractSliceIndices n (.slice a b c) minEnd minStart = .ok s) (i : Nat) (hi : i < s.slicelength) :
     ((s.start : Int) + (i : Int) * s.step) = ((s.at i : Nat) : Int) ∧ s.at i < n := by
   obtain ⟨h1, h2, h3⟩ := extract_slice_form hn hc h
   have hn64 : (n : Int) < 18446744073709551616 := by unfold PY_SSIZE_T_MAX at hn; omega
-  rcases h3 with ⟨hpos, hs, hl⟩ | ⟨hneg, hS, hs, hl⟩
+  rcases h3 with ⟨hpos, hs, hl⟩ | ⟨hneg, hs0, hl⟩
   · rw [hl] at hi
     have hb := countUp_bound hi
     have hE := boundUp_le b (Nat.le_refl n)
@@ -400,18 +397,22 @@ theorem slice_at_form {n : Nat} (hn : (n : Int) ≤ PY_SSIZE_T_MAX) {a b c : Opt
     have e : (i : Int) * ((-s.step).toNat : Int) = - ((i : Int) * s.step) := by
       have : ((-s.step).toNat : Int) = -s.step := by omega
       rw [this, Int.mul_neg]
-    rw [e, ← hs] at hb
-    unfold SliceIdx.at
     have hnn : (0 : Int) ≤ (i : Int) * ((-s.step).toNat : Int) :=
       Int.mul_nonneg (Int.natCast_nonneg _) (Int.natCast_nonneg _)
-    rw [e] at hnn
+    rw [e] at hb hnn
+    -- an item exists, so the normalised start is above the stop, hence non-negative
+    have hS : 0 ≤ PyList.boundDown n a ((n : Int) - 1) := by
+      generalize (i : Int) * s.step = t at hb hnn; omega
+    have hs : (s.start : Int) = PyList.boundDown n a ((n : Int) - 1) := by rw [hs0]; omega
+    rw [← hs] at hb
+    unfold SliceIdx.at
     generalize (i : Int) * s.step = t at hb hnn ⊢
     rw [wrap64_of_range (by omega) (by omega)]
     omega
 
 theorem slice_at_lt {n : Nat} (hn : (n : Int) ≤ PY_SSIZE_T_MAX) {idx : PyIdx}
-    (hc : ∀ a b v, idx = .slice a b (some v) → -PY_SSIZE_T_MAX ≤ v) {s : SliceIdx} {minEnd : Int}
-    (h : extractSliceIndices n idx minEnd = .ok s) (i : Nat) (hi : i < s.slicelength) : s.at i < n := by
+    (hc : ∀ a b v, idx = .slice a b (some v) → -PY_SSIZE_T_MAX ≤ v) {s : SliceIdx} {minEnd minStart : Int}
+    (h : extractSliceIndices n idx minEnd minStart = .ok s) (i : Nat) (hi : i < s.slicelength) : s.at i < n := by
   cases idx with
   | slice a b c =>
     exact (slice_at_form hn (fun v hv => hc a b v (by rw [hv])) h i hi).2
@@ -439,14 +440,14 @@ theorem slice_at_lt {n : Nat} (hn : (n : Int) ≤ PY_SSIZE_T_MAX) {idx : PyIdx}
     `start + i*step`, `i < slicelength`, are exactly the indices Python's `s[start:stop:step]` selects,
     for every length and all signs of start/stop/step. -/
 theorem extract_slice_spec {n : Nat} (hn : (n : Int) ≤ PY_SSIZE_T_MAX) {a b c : Option Int}
-    (hc : ∀ v, c = some v → -PY_SSIZE_T_MAX ≤ v) {s : SliceIdx} {minEnd : Int}
-    (h : extractSliceIndices n (.slice a b c) minEnd = .ok s) :
+    (hc : ∀ v, c = some v → -PY_SSIZE_T_MAX ≤ v) {s : SliceIdx} {minEnd minStart : Int}
+    (h : extractSliceIndices n (.slice a b c) minEnd minStart = .ok s) :
     PyList.sliceIndices n a b c = some ((List.range s.slicelength).map s.at) := by
   obtain ⟨h1, h2, h3⟩ := extract_slice_form hn hc h
   have hat := slice_at_form hn hc h
   unfold PyList.sliceIndices
   simp only [← h1, h2, if_false]
-  rcases h3 with ⟨hpos, hs, hl⟩ | ⟨hneg, hS, hs, hl⟩
+  rcases h3 with ⟨hpos, hs, hl⟩ | ⟨hneg, hs0, hl⟩
   · simp only [hpos, if_true, Option.some.injEq]
     have hE := boundUp_le b (Nat.le_refl n)
     rw [walkUp_eq (by omega) n _ (by omega), ← hl]
@@ -473,7 +474,13 @@ theorem extract_slice_spec {n : Nat} (hn : (n : Int) ≤ PY_SSIZE_T_MAX) {a b c 
     have e : (i : Int) * ((-s.step).toNat : Int) = - ((i : Int) * s.step) := by
       have : ((-s.step).toNat : Int) = -s.step := by omega
       rw [this, Int.mul_neg]
-    rw [e, ← hs]
+    have hb := countDown_bound (hl ▸ hi')
+    have hnn : (0 : Int) ≤ (i : Int) * ((-s.step).toNat : Int) :=
+      Int.mul_nonneg (Int.natCast_nonneg _) (Int.natCast_nonneg _)
+    rw [e] at hb hnn ⊢
+    have hs : (s.start : Int) = PyList.boundDown n a ((n : Int) - 1) := by
+      rw [hs0]; generalize (i : Int) * s.step = t at hb hnn; omega
+    rw [← hs]
     generalize (i : Int) * s.step = t at this ⊢
     omega
 
@@ -483,9 +490,9 @@ namespace ImathVerif.FixedArray
 open ImathVerif
 
 /-- CPython clamps a step below `-PY_SSIZE_T_MAX`; the result is that of the clamped step -/
-theorem extract_clamp (n : Nat) (a b : Option Int) (v : Int) (hv : v < -PY_SSIZE_T_MAX) (minEnd : Int) :
-    extractSliceIndices n (.slice a b (some v)) minEnd
-      = extractSliceIndices n (.slice a b (some (-PY_SSIZE_T_MAX))) minEnd := by
+theorem extract_clamp (n : Nat) (a b : Option Int) (v : Int) (hv : v < -PY_SSIZE_T_MAX) (minEnd minStart : Int) :
+    extractSliceIndices n (.slice a b (some v)) minEnd minStart
+      = extractSliceIndices n (.slice a b (some (-PY_SSIZE_T_MAX))) minEnd minStart := by
   have h0 : v ≠ 0 := by unfold PY_SSIZE_T_MAX at hv; omega
   have h1 : (-PY_SSIZE_T_MAX) ≠ 0 := by unfold PY_SSIZE_T_MAX; omega
   have h2 : ¬ (-PY_SSIZE_T_MAX < -PY_SSIZE_T_MAX) := by omega
@@ -493,8 +500,8 @@ theorem extract_clamp (n : Nat) (a b : Option Int) (v : Int) (hv : v < -PY_SSIZE
   simp only [h0, h1, hv, h2, if_true, if_false]
 
 /-- every position a successful `extract_slice_indices` yields is inside the array — any subscript at all -/
-theorem slice_at_lt' {n : Nat} (hn : (n : Int) ≤ PY_SSIZE_T_MAX) {idx : PyIdx} {s : SliceIdx} {minEnd : Int}
-    (h : extractSliceIndices n idx minEnd = .ok s) (i : Nat) (hi : i < s.slicelength) : s.at i < n := by
+theorem slice_at_lt' {n : Nat} (hn : (n : Int) ≤ PY_SSIZE_T_MAX) {idx : PyIdx} {s : SliceIdx} {minEnd minStart : Int}
+    (h : extractSliceIndices n idx minEnd minStart = .ok s) (i : Nat) (hi : i < s.slicelength) : s.at i < n := by
   cases idx with
   | int j => exact slice_at_lt hn (by intro a b v hv; cases hv) h i hi
   | slice a b c =>
@@ -577,5 +584,54 @@ theorem extract_slice_forward_ok {n : Nat} (hn : (n : Int) ≤ PY_SSIZE_T_MAX) {
     rcases extract_slice_error hn hc h with ⟨h1, _⟩ | ⟨_, h2, _⟩
     · subst h1; simp at hpos
     · omega
+
+end ImathVerif.FixedArray
+
+namespace ImathVerif.FixedArray
+open ImathVerif
+
+/-- REPAIRED start test (`minStart = -1`): every slice with a non-zero step is accepted — all signs -/
+theorem extract_slice_total_repaired {n : Nat} (hn : (n : Int) ≤ PY_SSIZE_T_MAX) {a b c : Option Int}
+    (hc0 : c ≠ some 0) (hc : ∀ v, c = some v → -PY_SSIZE_T_MAX ≤ v) :
+    ∃ s, extractSliceIndices n (.slice a b c) (-1) (-1) = .ok s := by
+  unfold extractSliceIndices
+  simp only
+  cases hu : sliceUnpack a b c with
+  | error e => exact absurd (sliceUnpack_error hu).1 hc0
+  | ok t =>
+    obtain ⟨sa, so, st⟩ := t
+    obtain ⟨h1, h2, h3, h4⟩ := sliceUnpack_ok hc hu
+    simp only
+    unfold sliceAdjust
+    by_cases hneg : st < 0
+    · simp only [hneg, if_true] at h3 h4 ⊢
+      subst h3 h4
+      rw [adjust_down_start hn hneg a, adjust_down_stop hn hneg b]
+      have hE := boundDown_range b (d := -1) (n := n) (by omega)
+      have hSr := boundDown_range a (d := (n : Int) - 1) (n := n) (by omega)
+      generalize PyList.boundDown n a ((n : Int) - 1) = S at hSr ⊢
+      generalize PyList.boundDown n b (-1) = E at hE ⊢
+      by_cases hSE : E < S
+      · simp only [hSE, if_true]
+        have hq : 0 ≤ (S - E - 1).tdiv (-st) := Int.tdiv_nonneg (by omega) (by omega)
+        have : ¬ (S < -1 ∨ E < -1 ∨ (S - E - 1).tdiv (-st) + 1 < 0) := by omega
+        simp [this]
+      · simp only [hSE, if_false]
+        have : ¬ (S < -1 ∨ E < -1) := by omega
+        simp [this]
+    · have hpos : 0 < st := by omega
+      simp only [hneg, if_false] at h3 h4 ⊢
+      subst h3 h4
+      rw [adjust_up_start hpos a, adjust_up_stop hn hpos b]
+      generalize PyList.boundUp n a 0 = S
+      generalize PyList.boundUp n b n = E
+      by_cases hSE : (S : Int) < (E : Int)
+      · simp only [hSE, if_true]
+        have hq : 0 ≤ ((E : Int) - (S : Int) - 1).tdiv st := Int.tdiv_nonneg (by omega) (by omega)
+        have : ¬ ((S : Int) < -1 ∨ (E : Int) < -1 ∨ ((E : Int) - (S : Int) - 1).tdiv st + 1 < 0) := by omega
+        simp [this]
+      · simp only [hSE, if_false]
+        have : ¬ ((S : Int) < -1 ∨ (E : Int) < -1) := by omega
+        simp [this]
 
 end ImathVerif.FixedArray
